@@ -322,13 +322,19 @@ contract(
               "self.plotting_frequency >= 1"],
     modifies=INS_LOOP_MOD + ["self.finalised"],
     returns="Tuple(Real,Any)",
+    # the work of an iteration (first statement after the stop test) starts
+    # only if the criteria are not met at or beyond the minimum iteration:
+    # the loop is left at the FIRST such iteration
+    hints=[("assert_before_stmt", "self._compute_gradient()",
+            f"not ({REACHED} and self.iteration >= self.min_iteration)")],
     loops={0: {
         "inv": INS_LIVE_OK + ["not self.finalised"],
         "modifies": INS_LOOP_MOD,
         # an iteration that reaches the cap does not start another one
         "continue_pre": ["self.iteration < self.max_iteration"],
         # an iteration starts only if the criteria are not (yet) met at or
-        # beyond the minimum iteration
+        # beyond the minimum iteration: the loop is left at the FIRST such
+        # iteration
         "body_pre": [],
     }},
     ensures=[
